@@ -73,7 +73,7 @@ func resCanon(res []ovsdb.OperationResult) ([]string, bool) {
 }
 
 func runC17(r *Run) {
-	r.Rule = "2-5 clients each issuing 4-12 transactions (every other run 6-8 clients with 20-39) concurrently through one real server: blind increments (mutate n += 1), read-modify-write increments guarded by wait, inserts competing for a unique index value, moves of a strongly referenced item between two holders; every transaction also inserts a marker row; 1-2 monitoring clients record the marker order from cache events; 3-6 further clients establish a monitor while the transactions are being committed and must end up mirroring the database; oracle: every monitor saw the same order; the committed transactions replayed sequentially in that order on a fresh database give the same results and the same final contents; counters equal the number of committed increments; exactly one insert per contested name succeeded; non-trivial = run in which at least two clients had transactions accepted; distinct by (seed, run)"
+	r.Rule = "2-5 clients each issuing 4-12 transactions (every other run 6-8 clients with 20-39) concurrently through one real server: blind increments (mutate n += 1), read-modify-write increments guarded by wait, inserts competing for a unique index value, moves of a strongly referenced item between two holders, items shared by both holders, references dropped (alone, or in a transaction that also competes for a unique name and may be rejected after its reference bookkeeping ran), garbage collection of items nobody holds; every transaction also inserts a marker row; 1-2 monitoring clients record the marker order from cache events; 3-6 further clients establish a monitor while the transactions are being committed and must end up mirroring the database; oracle: every monitor saw the same order; the committed transactions replayed sequentially in that order on a fresh database give the same results and the same final contents; counters equal the number of committed increments; exactly one insert per contested name succeeded; non-trivial = run in which at least two clients had transactions accepted; distinct by (seed, run)"
 	n := 25
 	if r.Tier == "thorough" {
 		n = 300
@@ -157,7 +157,7 @@ func c17Run(r *Run, h int) {
 			n = 20 + rng.Intn(20)
 		}
 		for k := n; k > 0; k-- {
-			plans[ci] = append(plans[ci], []string{"inc", "inc", "rmw", "claim", "move"}[rng.Intn(5)])
+			plans[ci] = append(plans[ci], []string{"inc", "inc", "rmw", "claim", "move", "share", "drop", "dropclaim"}[rng.Intn(8)])
 		}
 	}
 	seeds := make([]int64, nCli)
@@ -217,6 +217,23 @@ func c17Run(r *Run, h int) {
 				case "claim":
 					nm := names[lr.Intn(len(names))]
 					ops = []OperationJ{{Op: "insert", Table: "Uniq", UUID: mkUUID(200000 + ci*1000 + k), Row: Row{"name": VA(AS(nm)), "n": VA(AI(int64(ci)))}}, logOp}
+				case "share", "drop", "dropclaim":
+					// an item referenced from both holders; a reference dropped by a transaction that then loses
+					// the competition for a unique name (it is rejected after its reference bookkeeping ran);
+					// an item whose last reference goes is garbage collected
+					item := mkUUID(3 + lr.Intn(2))
+					holder := []string{"h0", "h1"}[lr.Intn(2)]
+					mut := "delete"
+					if kind == "share" {
+						mut = "insert"
+					}
+					ops = []OperationJ{{Op: "mutate", Table: "Holder", Where: []WCondJ{{Col: "name", Fn: "==", Val: VA(AS(holder))}},
+						Mutations: []MutationJ{{Col: "items", Mutator: mut, Val: VS(AU(item))}}}}
+					if kind == "dropclaim" {
+						nm := names[lr.Intn(len(names))]
+						ops = append(ops, OperationJ{Op: "insert", Table: "Uniq", UUID: mkUUID(300000 + ci*1000 + k), Row: Row{"name": VA(AS(nm)), "n": VA(AI(int64(ci)))}})
+					}
+					ops = append(ops, logOp)
 				case "move":
 					item := mkUUID(3 + lr.Intn(2))
 					from, to := "h0", "h1"
